@@ -134,3 +134,9 @@ Proof.
     + unfold asrc, adst, aattr. simpl. rewrite !N.eqb_refl. reflexivity.
     + rewrite E. apply IH. auto.
 Qed.
+
+(** the default species view cannot see coefficients, the aggregated one can: A >> B versus 2A >> B (ids A=0 B=1 r=2) *)
+Definition n_ab : net := Net [0;1]%N [Rxn 2%N [(0%N, 1%Z)] [(1%N, 1%Z)]].
+Definition n_2ab : net := Net [0;1]%N [Rxn 2%N [(0%N, 2%Z)] [(1%N, 1%Z)]].
+Lemma species_view_coefficients_invisible : exists n n' : net, view false true n = view false true n' /\ view_spS n <> view_spS n'.
+Proof. exists n_ab, n_2ab. split; [reflexivity|vm_compute; discriminate]. Qed.
